@@ -730,6 +730,8 @@ package dsl
 //@   requires errorSink != nil && functionCall != nil && visitor != nil
 //@   ensures wrong_arity_is_an_error: typeof(result) == *FunctionCallExpression && result.(*FunctionCallExpression) != nil && len(result.(*FunctionCallExpression).Arguments) != 2 ==> called("validation.(*ErrorSink).Add")
 //@   ensures the_result_is_a_size: (typeof(result) == *FunctionCallExpression && result.(*FunctionCallExpression) != nil ==> result.(*FunctionCallExpression).ResolvedType == SizeType) && (typeof(result) == *IntegerLiteralExpression && result.(*IntegerLiteralExpression) != nil ==> result.(*IntegerLiteralExpression).ResolvedType == SizeType)
+//@   ensures a_literal_dimension_name_becomes_the_position_of_that_dimension_in_the_array: typeof(result) == *IntegerLiteralExpression && result.(*IntegerLiteralExpression) != nil ==> called("math/big.NewInt") && typeof(target.Dimensionality) == *Array && 0 <= lastArg("math/big.NewInt", 0) && lastArg("math/big.NewInt", 0) < len(*target.Dimensionality.(*Array).Dimensions) && (*target.Dimensionality.(*Array).Dimensions)[lastArg("math/big.NewInt", 0)].Name != nil && *(*target.Dimensionality.(*Array).Dimensions)[lastArg("math/big.NewInt", 0)].Name == stringLiteral.Value
+//@ observe-args math/big.NewInt
 //@ func resolveSizeFunctionCall
 //@   property C09,C19
 //@   requires errorSink != nil && functionCall != nil && visitor != nil
@@ -776,7 +778,6 @@ package dsl
 // name has itself evolved: an iteration of the argument loop that goes on to the next argument saw no change or exactly
 // that one (a vector, optional, union ... of something that changed is a different argument: Image<float*> -> Image<double*>).
 //@   iteration 0: only_an_evolved_definition_is_tolerated_as_a_type_argument: lastResult(compareTypes) == nil || typeof(lastResult(compareTypes)) == *TypeChangeDefinitionChanged
-//@   ensures same_number_of_arguments_gives_one_of_three_verdicts: old(len(getBaseDefinition(newType.ResolvedDefinition).GetDefinitionMeta().TypeArguments) == len(getBaseDefinition(oldType.ResolvedDefinition).GetDefinitionMeta().TypeArguments)) ==> result == nil || typeof(result) == *TypeChangeDefinitionChanged || typeof(result) == *TypeChangeIncompatible
 
 // ---- C09: individual rules. "grew" = the pass reported at least one more error. ---------------------------------
 // A map key must be a primitive scalar type (aliases are looked through by GetUnderlyingType). Whether a key is
